@@ -557,9 +557,10 @@ def job_stream(pid, ctx, n_random=None):
     # fault scripts (kill() or signal() of the child fails): no model comparison — the trace-level oracles only
     r = random.Random(ctx["seed"] * 131 + 7)
     fscripts = ["kf1 K0,I s:start;y;s:tryrestart;a:50", "kf2 K0,I s:start;y;s:restart;a:50;s:run:1;y", "kf3 K40,I s:start;y;s:stop;a:10;s:start;a:100",
-                "kf4 K0 s:start;y;s:gstop:15:20;a:100;s:towait;s:deletenow;a:50", "kf5 G,I s:start;y;s:gstop:15:30;a:100;s:start;y", "kf6 K0,I s:start;y;s:gtryrestart:15:20;a:100;s:run:2;y"]
+                "kf4 K0 s:start;y;s:gstop:15:20;a:100;s:towait;s:deletenow;a:50", "kf5 G,I s:start;y;s:gstop:15:30;a:100;s:start;y", "kf6 K0,I s:start;y;s:gtryrestart:15:20;a:100;s:run:2;y",
+                "wf1 W,I s:start;y;s:start;a:50", "wf2 W,I s:start;a:10;s:restart;a:50;s:run:3;y", "wf3 W s:start;y;s:stop;y;s:start;a:20"]
     for i in range(1500 if ctx["thorough"] else 300):
-        behs = ",".join(r.choice(["K0", "K0", "K30", "K100", "G", "I", "E30", "S20", "F"]) for _ in range(r.randint(1, 3)))
+        behs = ",".join(r.choice(["K0", "K0", "K30", "K100", "G", "W", "W", "I", "E30", "S20", "F"]) for _ in range(r.randint(1, 3)))
         ops = []
         for _ in range(r.randint(2, 8)):
             a = r.choice(["start", "start", "stop", "gstop:15:20", "restart", "grestart:15:20", "tryrestart", "tryrestart", "gtryrestart:15:20", "signal:10", "towait", "run:%d" % r.randrange(50), "deletenow", "continue"])
@@ -1118,7 +1119,7 @@ def c08_streams(ctx):
         mainres, took, traces = m.group(1), int(m.group(2)), m.group(4).split(" // ")
         njobs = len(jobs.split("/"))
         while len(traces) < njobs: traces.append("")
-        exp_end = 0; bad = None; alive = []; bound = 0
+        exp_end = 0; spec_end = 0; bad = None; alive = []; bound = 0
         for ji in range(njobs):
             alts = model[f"{cid}.{ji}"].split(" ## ")
             got = traces[ji].strip()
@@ -1144,6 +1145,8 @@ def c08_streams(ctx):
                 elif len(p) > 2 and p[1] in ("reaped", "dropped"): live.discard(p[2])
             alive += [f"job{ji}:{x}" for x in live]
             hit = [cnd for cnd in cands if cnd[0] == got]
+            # when this job's task is gone by the model: over the matching traces, or — if the implementation's trace matches none — over all
+            if manner != "abort": spec_end = max(spec_end, max((h[1] if h[1] is not None else adv) for h in (hit or cands)))
             if not hit:
                 if bad is None: bad = f"job {ji}: implementation `{got}` not among the model's traces {[x[0] for x in cands[:3]]}"
                 continue
@@ -1155,6 +1158,10 @@ def c08_streams(ctx):
         if mainres != "ok": s.oracle_failures.append((i, c, im, f"main task did not finish cleanly after the quit: {mainres}"))
         if alive: s.oracle_failures.append((i, c, im, f"processes left behind after shutdown: {alive}"))
         if manner == "abort" and took > 0: s.oracle_failures.append((i, c, im, f"abort quit took {took} ms of virtual time"))
+        # the time bound, from the model (c08_quit_bound: a job is gone once the clock passes its deadline — the armed timer's expiry plus
+        # the grace periods still queued plus the quit's own): the main task must not take longer than the slowest job's model run
+        if manner != "abort" and mainres == "ok" and took > max(0, spec_end - adv):
+            s.oracle_failures.append((i, c, im, f"graceful quit took {took} ms; by the grace periods then in effect every job is gone after {max(0, spec_end - adv)} ms"))
         if manner != "abort":
             g = int(manner.split(":")[2])
             pend = 0
